@@ -54,6 +54,8 @@ type result struct {
 	InfeasibleUsed []infeasible `json:"infeasible_calls_used"`
 	// publication order: traces, shared fields, violations (see publish.go)
 	Publication *pubFacts `json:"publication"`
+	// channel discipline: send / close sites and the protocol that justifies each send (see chan.go)
+	Channel *chanFacts `json:"channel"`
 	// field -> mutex of its struct that guards it (configured or inferred)
 	GuardedBy []guardedByOut `json:"guarded_by"`
 	// mutable fields of mutex-bearing structs never seen accessed under the mutex (not checked; informational)
@@ -256,6 +258,7 @@ func (a *analyzer) result() *result {
 		}
 	}
 	r.Publication = a.pubResult()
+	r.Channel = a.chanResult()
 	r.Stats["contexts"] = a.contexts
 	r.Stats["guarded_access_kinds_seen_with_guard_held"] = len(a.guardedOK)
 	for k, v := range a.notes {
@@ -445,6 +448,9 @@ func emitCoq(r *result) string {
 	}
 	if r.Publication != nil {
 		emitPubCoq(&sb, r.Publication)
+	}
+	if r.Channel != nil {
+		sb.WriteString(emitChanCoq(r))
 	}
 	return sb.String()
 }
